@@ -209,6 +209,7 @@ fn con_functions() -> Vec<Option<FnRep>> {
         Some(FnRep::Lin { terms: vec![(1, 1.0), (2, -0.5)], c: 1.0 }),
         Some(FnRep::Quad { entries: vec![(2, 1, 1.0)], lin: Some((vec![(1, -1.0)], 0.0)) }),
         Some(FnRep::Poly { terms: vec![(vec![], 1.0), (vec![2], 1.0), (vec![], -2.5), (vec![2], -0.5)] }),
+        Some(FnRep::Poly { terms: vec![(vec![], 1.0), (vec![], 2.0)] }),
     ]
 }
 
